@@ -189,7 +189,7 @@ func (m *Monitors) checkPromises(prev *vh.Snapshot, bi *BatchInfo, next *vh.Snap
 			m.hit("promise.completed-row-stable")
 			if p0.State != p1.State || !bytes.Equal(p0.ValueData, p1.ValueData) || !vh.JSONMapEqual(p0.ValueHeaders, p1.ValueHeaders) ||
 				!strEq(p0.IkU, p1.IkU) || !i64Eq(p0.CompletedOn, p1.CompletedOn) {
-				m.violate("C01", "row:completed-promise-changed", fmt.Sprintf("completed promise %s changed: %s -> %s", id, p0, p1))
+				m.violate("C01,C02", "row:completed-promise-changed", fmt.Sprintf("completed promise %s changed: %s -> %s", id, p0, p1))
 			}
 			continue
 		}
@@ -452,7 +452,7 @@ func (m *Monitors) checkTasks(prev *vh.Snapshot, bi *BatchInfo, next *vh.Snapsho
 		m.hit("task.edge." + edge)
 		switch {
 		case t0.State == 8 || t0.State == 16:
-			m.violate("C07", "row:finished-task-changed", fmt.Sprintf("finished task changed: %s -> %s", t0, t1))
+			m.violate("C07,C02", "row:finished-task-changed", fmt.Sprintf("finished task changed: %s -> %s", t0, t1))
 		case t0.State == 1 && t1.State == 1:
 			// failed hand-off: attempt+1, expiresAt moved
 			if t1.Counter != t0.Counter || t1.Attempt != t0.Attempt+1 || t1.ProcessId != nil {
@@ -561,7 +561,7 @@ func (m *Monitors) checkTasks(prev *vh.Snapshot, bi *BatchInfo, next *vh.Snapsho
 				lease = m.guar[id]
 			}
 			if lease > t && t0.Timeout > t {
-				m.violate("C07", "row:lease-not-honoured", fmt.Sprintf("task taken away at tick %d although its lease runs to %d and its timeout to %d: %s", t, lease, t0.Timeout, t0))
+				m.violate("C07,C02", "row:lease-not-honoured", fmt.Sprintf("task taken away at tick %d although its lease runs to %d and its timeout to %d: %s", t, lease, t0.Timeout, t0))
 			}
 			if t1.ProcessId != nil || t1.Attempt != 0 || t1.Ttl != 0 || t1.ExpiresAt != 0 {
 				m.violate("C07", "row:reinit-fields", fmt.Sprintf("reclaimed task keeps holder data: %s", t1))
@@ -683,7 +683,7 @@ func (m *Monitors) checkLocks(prev *vh.Snapshot, bi *BatchInfo, next *vh.Snapsho
 			got := rowsOf(c.res)
 			if got != want {
 				if got == 1 {
-					m.violate("C09", "model:acquired-while-held", fmt.Sprintf("acquire of %s by %s succeeded at tick %d while %s holds it (%s)", a.ResourceId, a.ExecutionId, t, cur.ExecutionId, cur))
+					m.violate("C09,C02", "model:acquired-while-held", fmt.Sprintf("acquire of %s by %s succeeded at tick %d while %s holds it (%s)", a.ResourceId, a.ExecutionId, t, cur.ExecutionId, cur))
 				} else {
 					m.violate("C09", "model:acquire-refused-while-free", fmt.Sprintf("acquire of %s by %s was refused at tick %d although the lock is free or its own (%v)", a.ResourceId, a.ExecutionId, t, cur))
 				}
@@ -753,7 +753,7 @@ func (m *Monitors) checkLocks(prev *vh.Snapshot, bi *BatchInfo, next *vh.Snapsho
 			touched = true
 			tl := c.cmd.TimeoutLocks
 			if tl.Timeout > t {
-				m.violate("C09", "model:sweep-ahead-of-clock", fmt.Sprintf("expiry sweep at tick %d removes locks expiring up to %d", t, tl.Timeout))
+				m.violate("C09,C02", "model:sweep-ahead-of-clock", fmt.Sprintf("expiry sweep at tick %d removes locks expiring up to %d", t, tl.Timeout))
 			}
 			n := int64(0)
 			for id, l := range model {
@@ -782,7 +782,7 @@ func (m *Monitors) checkLocks(prev *vh.Snapshot, bi *BatchInfo, next *vh.Snapsho
 		}
 		for id, ml := range model {
 			if next.L[id] == nil {
-				m.violate("C09", "model:lock-vanished", fmt.Sprintf("lock %s is gone after batch #%d although no release by its holder or entitled sweep removed it", ml, bi.Index))
+				m.violate("C09,C02", "model:lock-vanished", fmt.Sprintf("lock %s is gone after batch #%d although no release by its holder or entitled sweep removed it", ml, bi.Index))
 			}
 		}
 	} else {
@@ -1191,6 +1191,9 @@ func (m *Monitors) OnReturn(o *OpRec) {
 	}
 	kind := o.Req.Kind
 	st := o.Status()
+	if m.s.spec {
+		m.specReturn(o)
+	}
 	clock := ""
 	switch kind {
 	case t_api.ReadPromise:
@@ -1288,4 +1291,35 @@ func (m *Monitors) checkRegistrationAck(o *OpRec) {
 		sig = "ack:registration-lost:200-pending-nothing-stored"
 	}
 	m.violate("C05", sig, fmt.Sprintf("op%d (%s) was acknowledged %d showing %s pending, but neither a registration nor a task %s is stored", o.Idx, o.Req, st, pid, id))
+}
+
+// specReturn runs the sequential-specification judgement on an answered request.
+func (m *Monitors) specReturn(o *OpRec) {
+	problem, skip := m.specJudge(o)
+	if skip {
+		m.hit("spec.skipped")
+		return
+	}
+	m.hit("spec.judged")
+	m.hit("spec.judged." + o.Req.Kind.String())
+	m.region("spec-judged")
+	props := "C02"
+	switch o.Req.Kind {
+	case t_api.CreatePromise, t_api.CreatePromiseAndTask, t_api.CompletePromise:
+		props = "C02,C03"
+	}
+	if problem != "" {
+		sig := "spec:" + o.Req.Kind.String() + ":" + fmt.Sprint(o.Status())
+		if strings.HasPrefix(problem, "claim-payload-skew") {
+			sig = "spec:claim-payload-skew"
+		}
+		m.violate(props, sig, fmt.Sprintf("op%d %s answered %d; %s", o.Idx, o.Req, o.Status(), problem))
+	}
+	if e := m.specEffects(o); e != "" {
+		if strings.HasPrefix(e, "losing-completion") {
+			m.violate("C02", "spec:losing-completion-had-effects", e)
+		} else {
+			m.violate("C02", "spec:request-took-effect-twice:"+o.Req.Kind.String(), e)
+		}
+	}
 }
